@@ -24,7 +24,7 @@ MORE2 = {
              "(tree_hash_from_stream: iff; node_from_bytes: iff up to allocator limits), to consume the same number of bytes and to describe the "
              "same tree (the decoded tree / its tree hash); every index, slice, unwrap and cast in them is a discharged obligation (no panic). "
              "is_canonical_serialization on inputs node_from_bytes accepts is true exactly when the whole input is one tree of canonical tokens. "
-             "parse_triples (de_tree.rs) is NOT under contract.",
+             "parse_triples (de_tree.rs) is NOT under contract: for it the check runs a BOUNDED stand-in on every run (a differential test of the real code against node_from_bytes over all strings of length <= 4 over 14 format-relevant bytes, <= 6 behind three heads, and 1500 random trees with mutations; labelled bounded, never counted as proved, decisive only as a refutation with a concrete input).",
         note=TB + "decode_size_with_offset assumed with the Kani-proved statement; hash_atom / hash_pair assumed to be SHA-256 of 1||atom, 2||l||r.",
         tech="contract-based deductive verification (Verus): two decoders against one grammar specification; Kani for the prefix decoder",
         ref="4/C16, 11.1"),
@@ -32,7 +32,7 @@ MORE2 = {
         text="Partial proof (Verus) for two of the implementations: tree_hash_costed / the sha256tree operator return exactly tree_hash(tree) and "
              "tree_hash_from_stream returns tree_hash of the decoded tree, where tree_hash is the recursive definition sha256(1||atom), "
              "sha256(2||left||right) over an uninterpreted SHA-256; the precomputed table for small integers is checked completely on every run "
-             "(37 hex literals against hashlib). The object-cache, interned-tree, parse_triples and Python implementations are NOT under contract.",
+             "(37 hex literals against hashlib). The object-cache, interned-tree and Python implementations are NOT under contract; for parse_triples' hashes the check runs a BOUNDED stand-in on every run (differential test against the recursive definition on the same finite input set as C16's; labelled bounded, never counted as proved).",
         note=TB + "tree_hash_atom / tree_hash_pair / hash_atom / hash_pair (calls into chia_sha2) are ASSUMED to be SHA-256 of the documented input.",
         tech="contract-based deductive verification (Verus): machine invariant relating pending operations to the recursive hash definition",
         ref="4/C22, 11.1"),
